@@ -72,7 +72,7 @@ Definition herk_dispatch (upper : bool) (a c : mat) : l3_outcome rk_call :=
       if rows a =? 1 then L3Call (mk_rk_call 712 (if upper then ch_L else ch_U) ch_N n k (mbase a) (s1 a) (mbase c) (s1 c))    (* :136 *)
       else L3Abort                                                                                                              (* :137 *)
     else if (s0 a =? 1) && negb (s0 c =? 1) then L3Abort                                                                        (* :139 *)
-    else L3Call (mk_rk_call 714 (if upper then ch_U else ch_L) ch_N n k (mbase a) (s1 a) (mbase c) (s1 c)).                     (* :140 *)
+    else L3Call (mk_rk_call 713 (if upper then ch_U else ch_L) ch_N n k (mbase a) (s1 a) (mbase c) (s1 c)).                     (* :140 *)
 
 (* hermitized(c) = conjugate transpose: the non-conjugated transposed view of the same cells when c is conjugated *)
 Definition hermitized (c : mat) : mat := mk_mat (mbase c) (s1 c) (s0 c) (cols c) (rows c) (negb (mconj c)).
